@@ -6,9 +6,14 @@ Open Scope string_scope.
 
 Definition cls3 (r : string * string * string) : string := snd r.
 
-(* no http.Redirect target reads the request without passing through getLoginDestination
-   (class "request"); the OpenID client redirect is validated separately (C13) *)
-Lemma c17_sinks : forallb (fun r => negb (String.eqb (cls3 r) "request")) redirect_sinks = true.
+(* every http.Redirect target is of a construction the model covers: a constant, profileURI, a value
+   that came from getLoginDestination (incl. pending.loginDestination), the configured provider URL, the
+   OpenID client redirect (validated separately, C13), "/?user=<session user>" (Model.Dest.logout_target),
+   or the loopback hand-over of a CLI login.  A target that reads the request without the filter (class
+   "request"), a function parameter ("param") or any other expression ("other") fails. *)
+Definition c17_sink_classes : list string :=
+  ["const"; "filtered"; "profileuri"; "config"; "oidc-validated"; "query-of-root:session-user"; "localhost-cli"].
+Lemma c17_sinks : forallb (fun r => existsb (String.eqb (cls3 r)) c17_sink_classes) redirect_sinks = true.
 Proof. vm_compute. reflexivity. Qed.
 Goal True. idtac "@@OBL c17_sinks". Abort.
 
